@@ -812,6 +812,22 @@ def gen_C08(rng, tier):
             h.op("files")
         if marker_free(p, h.ts):
             out.append((f"cache-{mode}", h.script()))
+    # several sessions, several levels: a coarse level that is still empty (or holds an open
+    # bucket only) when the series is reopened must end up with the same buckets
+    for (caches, cut_at) in [([4, 16], 10), ([2, 10], 1), ([3, 7], 5), ([10, 64], 9)]:
+        for p in ([0, 2, 4] if tier == "quick" else [0, 1, 2, 3, 4, 8]):
+            h = Hist(p, caches=caches)
+            h.new()
+            t = rng.choice([0, 1000, U64 - 10 ** 7])
+            total = 3 * caches[-1] + 2
+            for i in range(total):
+                h.push(t, rng)
+                t += rng.choice([1, 7, 7, 7, MAXD + 1])
+                if i + 1 == cut_at or (i > cut_at and rng.random() < 0.05):
+                    h.reopen()
+            h.op("files")
+            if marker_free(p, h.ts):
+                out.append((f"sessions-{caches[0]}-{caches[1]}-p{p}", h.script()))
     # source spanning several buffers, cache created afterwards (reader carry path)
     for p in ([0, 4] if tier == "quick" else [0, 1, 2, 3, 4]):
         h = big_sparse(p, lines_for_bytes(p, 2 * 16384 + 300, True), seed=p + 41)
